@@ -422,7 +422,8 @@ func rulesC05(p *Prog, r *Report) {
 		ruleIDsScannable(p, r, t, kw, "G7")
 	}
 	ruleIDClassExact(p, r, kw, "G10")
-	ruleP1(p, r, eng)
+	pinfo, pfuncs := ruleP1x(p, r, eng)
+	ruleG11(p, r, pinfo, pfuncs)
 	ruleG8(p, r)
 	ruleAfterRecognition(p, r, "G9", true)
 }
